@@ -376,3 +376,36 @@ def canon_text(run, fn, cls, text, fold=True, locals_=()):
     if fold:
         e = fold_consts(run.P, e, fn, cls, locals_=set(locals_))
     return ast.unparse(e)
+
+
+def prop_expand(run, PV, cls, text, depth=3):
+    """`self.<p>` for a property p of cls whose getter has one closed return expression is replaced by that expression (canonical text)."""
+    from sa.decide import return_values
+    try:
+        e = ast.parse(text, mode="eval").body
+    except SyntaxError:
+        return text
+    A = run.A
+
+    class T(ast.NodeTransformer):
+        def __init__(self, d):
+            self.d = d
+
+        def visit_Attribute(self, node):
+            self.generic_visit(node)
+            if isinstance(node.ctx, ast.Load) and isinstance(node.value, ast.Name) and node.value.id == "self" and self.d > 0:
+                r = cls.lookup(node.attr)
+                if r is not None and r[1] == "method" and r[2].is_property:
+                    try:
+                        rv = set(return_values(A, r[2], cls, PV))
+                    except AnalysisError:
+                        return node
+                    if len(rv) == 1:
+                        try:
+                            sub = ast.parse(next(iter(rv)), mode="eval").body
+                        except SyntaxError:
+                            return node
+                        if not any(isinstance(n, ast.Attribute) and n.attr == node.attr and isinstance(n.value, ast.Name) and n.value.id == "self" for n in ast.walk(sub)):
+                            return T(self.d - 1).visit(sub)
+            return node
+    return ast.unparse(T(depth).visit(e))
